@@ -18,6 +18,8 @@ func init() {
 		ruleZ3(c, "C12.Z3")
 		ruleZ4(c, "C12.Z4")
 		ruleW1(c, "C12.Z5")
+		ruleA2(c, "C12.Z6")
+		ruleF4(c, "C12.Z7")
 	}
 }
 
@@ -391,7 +393,7 @@ func bwdSources(v ssa.Value) map[ssa.Value]bool {
 
 func ruleZ3(c *Ctx, id string) {
 	V, P, R := c.V, c.P, c.R
-	R.Rule(id, "a file that shrinks to an unaligned size has the rest of its last kept block cleared, at shrink time or before the bytes are re-exposed by growth (presence of the mechanism)", 1)
+	R.Rule(id, "a file that shrinks to an unaligned size has the rest of its last kept block cleared, at shrink time or before the bytes are re-exposed by growth: the clearing exists and runs on every unaligned shrink", 2)
 	if V.Resize == nil {
 		return
 	}
@@ -427,6 +429,99 @@ func ruleZ3(c *Ctx, id string) {
 				}
 			}
 		}
+	}
+	// ... and it runs whenever the size shrinks to an unaligned value: a path through Resize that skips the
+	// clearing takes the 'not smaller than the current size' edge or the 'aligned' edge
+	if found != "" {
+		f := V.Resize
+		clearing := map[*ssa.Function]bool{}
+		for fn := range reach {
+			if FuncName(fn) == found {
+				clearing[fn] = true
+			}
+		}
+		clr := P.NewAlways(func(in ssa.Instruction) bool {
+			cal := staticCallee(in)
+			return cal != nil && clearing[cal]
+		})
+		sz := ssa.Value(f.Params[2])
+		var sizeStores []ssa.Instruction
+		for _, w := range FieldWrites(f) {
+			if w.Type == V.Inode && w.Field == "Size" {
+				sizeStores = append(sizeStores, w.Instr)
+			}
+		}
+		isOldSize := func(v ssa.Value) bool {
+			n, fl, base, _ := loadedField(v)
+			if n != V.Inode || fl != "Size" || base != ssa.Value(f.Params[0]) {
+				return false
+			}
+			ld, ok := stripConv(v).(ssa.Instruction)
+			if !ok {
+				return false
+			}
+			for _, st := range sizeStores {
+				if reachableFrom(st, ld) {
+					return false // the size was already overwritten
+				}
+			}
+			return true
+		}
+		notSmaller := condEdge(f, func(cd Cond) (bool, bool) {
+			op, a, b := cd.Op, cd.X, cd.Y
+			if a == nil || b == nil {
+				return false, false
+			}
+			if stripConv(b) == sz && isOldSize(a) {
+				op, a, b = flipOp(op), b, a
+			}
+			if stripConv(a) != sz || !isOldSize(b) {
+				return false, false
+			}
+			switch op {
+			case token.LSS:
+				return true, false
+			case token.GEQ:
+				return true, true
+			}
+			return false, false
+		})
+		bs := constOfPkg(P, "github.com/goose-lang/primitive/disk", "BlockSize")
+		aligned := condEdge(f, func(cd Cond) (bool, bool) {
+			rem, ok := stripConv(cd.X).(*ssa.BinOp)
+			k, isk := constInt(cd.Y)
+			if !ok || rem.Op != token.REM || stripConv(rem.X) != sz || !isk || k != 0 {
+				return false, false
+			}
+			if d, isd := constInt(stripConv(rem.Y)); !isd || d != bs {
+				return false, false
+			}
+			switch cd.Op {
+			case token.NEQ:
+				return true, false
+			case token.EQL:
+				return true, true
+			}
+			return false, false
+		})
+		okAll := true
+		for _, b := range f.Blocks {
+			if _, isRet := b.Instrs[len(b.Instrs)-1].(*ssa.Return); !isRet {
+				continue
+			}
+			clrBlocks := func(from, to *ssa.BasicBlock) bool {
+				for _, in := range to.Instrs {
+					if clr.Instr(in) {
+						return true
+					}
+				}
+				return false
+			}
+			if !everyPathTakes(f, b, clrBlocks, notSmaller, aligned) {
+				okAll = false
+			}
+		}
+		R.Check(okAll, id, "inode.Resize|clearing on every unaligned shrink", P.Pos(f.Pos()), "every path through Resize clears the tail, or finds the new size not smaller than the current one (compared before Size is overwritten), or finds it block-aligned", "no path avoids all three", "a shrink inside the last block (no block freed) keeps the cut-off bytes; growing the file again shows them")
 	}
 	R.Check(found != "", id, "inode.Resize|tail of the last kept block is cleared", P.Pos(V.Resize.Pos()), "from Resize (not through FreeBlock) a partial clearing of a data block's buffer is reachable", "clearing in "+found, "no mechanism clears bytes beyond the new size in the last kept block: shrinking to an unaligned size and growing again re-exposes the old bytes")
 }
